@@ -663,7 +663,7 @@ package otr3
 //@   ensures [C08.end.smp] old(c.msgState) == encrypted ==> (c.smp.secret == nil && c.smp.state == nil)
 
 //@ func (*Conversation).akeHasFinished
-//@   requires c != nil && c.ake != nil && c.ourCurrentKey != nil && keysNonNil(c)
+//@   requires c != nil && c.ake != nil && c.ourCurrentKey != nil
 //@   modifies anything
 //@   modifies seclog(c), msglog(c), kmcWiped(addr(c.keys)), keysWiped(addr(c.keys)), akeWiped(c.ake), akeKeysWiped(c.ake), kmcWiped(addr(c.ake.keys)), keysWiped(addr(c.ake.keys))
 //@   preserves [C01.finish.frame] c.theirKey, c.ake, c.version, c.Policies, c.ourCurrentKey, c.ourInstanceTag, c.theirInstanceTag, c.sentRevealSig, c.smp.state
@@ -728,7 +728,7 @@ package otr3
 //@ func (*Conversation).processEncryptedSig
 //@   requires c != nil && c.ake != nil && keys != nil && c.version != nil && c.ake.theirPublicValue != nil && c.ake.ourPublicValue != nil
 //@   modifies anything
-//@   preserves [C01.encsig.frame] c.ake.theirPublicValue, c.ake.ourPublicValue, val(c.ake.theirPublicValue), c.msgState, c.ake, c.version, c.sentRevealSig, c.keys.ourKeyID, c.keys.theirKeyID, c.ourCurrentKey, c.theirInstanceTag, c.ourInstanceTag
+//@   preserves [C01.encsig.frame] c.Policies, c.ake.theirPublicValue, c.ake.ourPublicValue, val(c.ake.theirPublicValue), c.msgState, c.ake, c.version, c.sentRevealSig, c.keys.ourKeyID, c.keys.theirKeyID, c.ourCurrentKey, c.theirInstanceTag, c.ourInstanceTag
 //@   ensures [C01.gate.encsig] result == nil ==> (akemacok(nil) && sigok(nil))
 //@   ensures [C01.theirkey.onlyverified,C06.theirkey.reject] result != nil ==> (c.theirKey == old(c.theirKey) && c.ake.keys.theirKeyID == old(c.ake.keys.theirKeyID))
 //@   ensures [C01.theirkey.set] result == nil ==> c.theirKey != nil
@@ -737,7 +737,7 @@ package otr3
 //@ func (*Conversation).processRevealSig
 //@   requires c != nil && c.ake != nil && c.version != nil && c.ake.ourPublicValue != nil && c.ake.secretExponent !== nil
 //@   modifies anything
-//@   preserves [C01.revealsig.frame] c.msgState, c.ake, c.version, c.sentRevealSig, c.keys.ourKeyID, c.keys.theirKeyID, c.ourCurrentKey, c.theirInstanceTag, c.ourInstanceTag
+//@   preserves [C01.revealsig.frame] c.ake.ourPublicValue, c.Policies, c.msgState, c.ake, c.version, c.sentRevealSig, c.keys.ourKeyID, c.keys.theirKeyID, c.ourCurrentKey, c.theirInstanceTag, c.ourInstanceTag
 //@   ensures [C01.gate.revealsig] err == nil ==> (commitok(nil) && akemacok(nil) && sigok(nil) && c.ake.theirPublicValue != nil && inGroup(c.ake.theirPublicValue))
 //@   ensures [C01.theirkey.onlyverified.revealsig,C06.theirkey.reject.revealsig] err != nil ==> c.theirKey == old(c.theirKey)
 //@   modifies commitok(nil), akemacok(nil), sigok(nil)
@@ -745,7 +745,7 @@ package otr3
 //@ func (*Conversation).processSig
 //@   requires c != nil && c.ake != nil && c.version != nil && c.ake.theirPublicValue != nil && c.ake.ourPublicValue != nil
 //@   modifies anything
-//@   preserves [C01.sig.frame] c.msgState, c.ake, c.version, c.sentRevealSig, c.keys.ourKeyID, c.keys.theirKeyID, c.ourCurrentKey, c.theirInstanceTag, c.ourInstanceTag
+//@   preserves [C01.sig.frame] c.ake.theirPublicValue, c.ake.ourPublicValue, c.Policies, c.msgState, c.ake, c.version, c.sentRevealSig, c.keys.ourKeyID, c.keys.theirKeyID, c.ourCurrentKey, c.theirInstanceTag, c.ourInstanceTag
 //@   ensures [C01.gate.sig] err == nil ==> (akemacok(nil) && sigok(nil))
 //@   ensures [C01.theirkey.onlyverified.sig,C06.theirkey.reject.sig] err != nil ==> c.theirKey == old(c.theirKey)
 //@   modifies akemacok(nil), sigok(nil)
@@ -792,3 +792,122 @@ package otr3
 //@   requires c != nil
 //@   modifies c.*
 //@   ensures [C17.dhkey.parse,C10.accept.dhkey] result == nil ==> (c.gy != nil && len(msg) >= 4)
+
+// ---------------------------------------------------------------------------
+// auth_state_machine.go: the AKE transition table (C07, C01, C06)
+// ---------------------------------------------------------------------------
+//@ define akeOK(c) = c != nil && c.ake != nil && c.version != nil && c.ourCurrentKey != nil && keysNonNil(c)
+//@ define isNone(s) = typeis(s, authStateNone)
+//@ define isAwDHKey(s) = typeis(s, authStateAwaitingDHKey)
+//@ define isAwRevealSig(s) = typeis(s, authStateAwaitingRevealSig)
+//@ define isAwSig(s) = typeis(s, authStateAwaitingSig)
+
+// the nine cells in which the message is not expected and must be ignored
+//@ func (authStateNone).receiveDHKeyMessage
+//@   pure
+//@   ensures [C01.ignore.none.dhkey,C07.cell.none.dhkey] isNone(result0) && result1 === nil && result2 == nil
+//@ func (authStateAwaitingRevealSig).receiveDHKeyMessage
+//@   pure
+//@   ensures [C01.ignore.awrevealsig.dhkey,C07.cell.awrevealsig.dhkey] isAwRevealSig(result0) && result1 === nil && result2 == nil
+//@ func (authStateNone).receiveRevealSigMessage
+//@   pure
+//@   ensures [C01.ignore.none.revealsig,C07.cell.none.revealsig] isNone(result0) && result1 === nil && result2 == nil
+//@ func (authStateAwaitingDHKey).receiveRevealSigMessage
+//@   pure
+//@   ensures [C01.ignore.awdhkey.revealsig,C07.cell.awdhkey.revealsig] isAwDHKey(result0) && result1 === nil && result2 == nil
+//@ func (authStateAwaitingSig).receiveRevealSigMessage
+//@   pure
+//@   ensures [C01.ignore.awsig.revealsig,C07.cell.awsig.revealsig] isAwSig(result0) && unbox(result0, authStateAwaitingSig).revealSigMsg === s.revealSigMsg && result1 === nil && result2 == nil
+//@ func (authStateNone).receiveSigMessage
+//@   pure
+//@   ensures [C01.ignore.none.sig,C07.cell.none.sig] isNone(result0) && result1 === nil && result2 == nil
+//@ func (authStateAwaitingRevealSig).receiveSigMessage
+//@   pure
+//@   ensures [C01.ignore.awrevealsig.sig,C07.cell.awrevealsig.sig] isAwRevealSig(result0) && result1 === nil && result2 == nil
+//@ func (authStateAwaitingDHKey).receiveSigMessage
+//@   pure
+//@   ensures [C01.ignore.awdhkey.sig,C07.cell.awdhkey.sig] isAwDHKey(result0) && result1 === nil && result2 == nil
+
+//@ func (*Conversation).dhKeyMessage
+//@   requires c != nil && c.version != nil
+//@   modifies anything
+//@   preserves [C07.dhkeymsg.frame] c.msgState, c.theirKey, c.version, c.ourCurrentKey, c.sentRevealSig, c.keys.ourKeyID, c.keys.theirKeyID, c.Policies, c.ourInstanceTag, c.theirInstanceTag
+//@   ensures result1 == nil ==> (c.ake != nil && fresh(c.ake) && c.ake.ourPublicValue != nil && c.ake.secretExponent !== nil && nonglobal(result0))
+//@ func (*Conversation).processDHCommit
+//@   requires c != nil && c.ake != nil
+//@   modifies c.ake.encryptedGx, c.ake.xhashedGx
+//@   ensures [C06.commit.reject] result != nil ==> (c.ake.encryptedGx === old(c.ake.encryptedGx) && c.ake.xhashedGx === old(c.ake.xhashedGx))
+//@ func (*Conversation).wrapMessageHeader
+//@   requires c != nil && c.version != nil
+//@   modifies c.ourInstanceTag, elems(msg)
+//@   ensures result1 == nil ==> (len(result0) >= 3 && nonglobal(result0))
+//@   ensures result1 != nil ==> result0 === nil
+
+//@ func (authStateNone).receiveDHCommitMessage
+//@   modifies akeWiped(c.ake), akeKeysWiped(c.ake), kmcWiped(addr(c.ake.keys)), keysWiped(addr(c.ake.keys))
+//@   requires akeOK(c)
+//@   modifies anything
+//@   preserves [C07.cell.none.commit.frame,C01.none.commit.frame] c.msgState, c.theirKey, c.version, c.ourCurrentKey, c.sentRevealSig, c.keys.ourKeyID, c.keys.theirKeyID, c.Policies
+//@   ensures [C07.cell.none.commit] result2 == nil ==> (isAwRevealSig(result0) && len(result1) >= 3)
+//@   ensures [C07.cell.none.commit.err] result2 != nil ==> (isNone(result0) && result1 === nil)
+
+//@ func (authStateAwaitingRevealSig).receiveDHCommitMessage
+//@   modifies akeWiped(c.ake), akeKeysWiped(c.ake), kmcWiped(addr(c.ake.keys)), keysWiped(addr(c.ake.keys))
+//@   requires akeOK(c) && c.ake.ourPublicValue != nil
+//@   modifies anything
+//@   preserves [C07.cell.awrevealsig.commit.frame,C01.awrevealsig.commit.frame] c.msgState, c.theirKey, c.version, c.ourCurrentKey, c.sentRevealSig, c.keys.ourKeyID, c.keys.theirKeyID, c.Policies, c.ake, c.ake.ourPublicValue, c.ake.secretExponent
+//@   ensures [C07.cell.awrevealsig.commit] result2 == nil ==> (isAwRevealSig(result0) && len(result1) >= 3)
+//@   ensures [C07.cell.awrevealsig.commit.err] result2 != nil ==> (isAwRevealSig(result0) && result1 === nil)
+
+//@ func (authStateAwaitingDHKey).receiveDHCommitMessage
+//@   modifies akeWiped(c.ake), akeKeysWiped(c.ake), kmcWiped(addr(c.ake.keys)), keysWiped(addr(c.ake.keys))
+//@   requires akeOK(c) && c.ake.ourPublicValue != nil
+//@   modifies anything
+//@   preserves [C07.cell.awdhkey.commit.frame,C01.awdhkey.commit.frame] c.msgState, c.theirKey, c.version, c.ourCurrentKey, c.sentRevealSig, c.keys.ourKeyID, c.keys.theirKeyID, c.Policies
+//@   ensures [C07.collision.high] (result2 == nil && c.ake == old(c.ake)) ==> isAwDHKey(result0)
+//@   ensures [C07.collision.states] result2 == nil ==> (isAwRevealSig(result0) || isAwDHKey(result0))
+//@   ensures [C07.collision.err] result2 != nil ==> result1 === nil
+
+//@ func (authStateAwaitingDHKey).receiveDHKeyMessage
+//@   requires akeOK(c) && c.ake.ourPublicValue != nil && c.ake.secretExponent !== nil
+//@   modifies anything
+//@   preserves [C07.cell.awdhkey.dhkey.frame,C01.awdhkey.dhkey.frame] c.msgState, c.theirKey, c.version, c.ourCurrentKey, c.keys.ourKeyID, c.keys.theirKeyID, c.Policies, c.ake
+//@   ensures [C07.cell.awdhkey.dhkey] result2 == nil ==> (isAwSig(result0) && len(result1) >= 3 && unbox(result0, authStateAwaitingSig).revealSigMsg === result1 && c.sentRevealSig)
+//@   ensures [C07.cell.awdhkey.dhkey.err,C06.ake.reject.awdhkey.dhkey] result2 != nil ==> (isAwDHKey(result0) && result1 === nil && c.sentRevealSig == old(c.sentRevealSig))
+
+//@ func (authStateAwaitingSig).receiveDHKeyMessage
+//@   requires akeOK(c)
+//@   modifies c.ake.theirPublicValue
+//@   ensures [C07.retransmit] isAwSig(result0) && unbox(result0, authStateAwaitingSig).revealSigMsg === s.revealSigMsg && (result1 === nil || result1 === s.revealSigMsg)
+//@   ensures [C07.retransmit.err] result2 != nil ==> result1 === nil
+
+//@ func (authStateAwaitingRevealSig).receiveRevealSigMessage
+//@   requires akeOK(c) && c.ake.ourPublicValue != nil && c.ake.secretExponent !== nil
+//@   modifies anything
+//@   modifies commitok(nil), akemacok(nil), sigok(nil), seclog(c), msglog(c), kmcWiped(addr(c.keys)), keysWiped(addr(c.keys)), akeWiped(c.ake), akeKeysWiped(c.ake), kmcWiped(addr(c.ake.keys)), keysWiped(addr(c.ake.keys))
+//@   preserves [C01.awrevealsig.revealsig.frame] c.version, c.ourCurrentKey, c.Policies, c.ake
+//@   ensures [C01.finish.gate.revealsig,C07.finish.revealsig] c.msgState != old(c.msgState) ==> (commitok(nil) && akemacok(nil) && sigok(nil) && c.msgState == encrypted && isNone(result0))
+//@   ensures [C01.finish.revealsig.ok] (result2 == nil) ==> (c.msgState == encrypted && isNone(result0) && len(result1) >= 3 && !c.sentRevealSig && commitok(nil) && akemacok(nil) && sigok(nil))
+//@   ensures [C06.ake.reject.awrevealsig.revealsig] (result2 != nil && c.msgState == old(c.msgState) && !isNone(result0)) ==> (isAwRevealSig(result0) && result1 === nil && c.theirKey == old(c.theirKey))
+
+//@ func (authStateAwaitingSig).receiveSigMessage
+//@   requires akeOK(c) && c.ake.ourPublicValue != nil && c.ake.theirPublicValue != nil
+//@   modifies anything
+//@   modifies akemacok(nil), sigok(nil), seclog(c), msglog(c), kmcWiped(addr(c.keys)), keysWiped(addr(c.keys)), akeWiped(c.ake), akeKeysWiped(c.ake), kmcWiped(addr(c.ake.keys)), keysWiped(addr(c.ake.keys))
+//@   preserves [C01.awsig.sig.frame] c.version, c.ourCurrentKey, c.Policies, c.ake, c.sentRevealSig
+//@   ensures [C01.finish.gate.sig,C07.finish.sig] c.msgState != old(c.msgState) ==> (akemacok(nil) && sigok(nil) && c.msgState == encrypted && isNone(result0))
+//@   ensures [C01.finish.sig.ok] result2 == nil ==> (c.msgState == encrypted && isNone(result0) && result1 === nil && akemacok(nil) && sigok(nil))
+//@   ensures [C06.ake.reject.awsig.sig] (result2 != nil && c.msgState == old(c.msgState) && !isNone(result0)) ==> (isAwSig(result0) && unbox(result0, authStateAwaitingSig).revealSigMsg === s.revealSigMsg && result1 === nil && c.theirKey == old(c.theirKey))
+
+//@ func (authStateBase).receiveDHCommitMessage
+//@   requires akeOK(c)
+//@   modifies anything
+//@   modifies akeWiped(c.ake), akeKeysWiped(c.ake), kmcWiped(addr(c.ake.keys)), keysWiped(addr(c.ake.keys))
+//@   preserves [C07.cell.base.commit.frame] c.msgState, c.theirKey, c.version, c.ourCurrentKey, c.sentRevealSig, c.keys.ourKeyID, c.keys.theirKeyID, c.Policies
+//@   ensures [C07.cell.awsig.commit] result2 == nil ==> (isAwRevealSig(result0) && len(result1) >= 3)
+//@   ensures [C07.cell.awsig.commit.err] result2 != nil ==> (isNone(result0) && result1 === nil)
+
+//@ func encrypt
+//@   requires len(key) == 16
+//@   pure
+//@   ensures result1 == nil && fresh(result0) && len(result0) == len(data)
